@@ -730,6 +730,26 @@ func (s *r3State) apiPath(p *core.Path, isSource func(*types.Var) bool) {
 				"the exit channel remembered in "+core.FieldName(src.Field)+" is read and the field is then overwritten, but on this path the value read is neither handed to a start nor stored back (nor shown nil): a later routine no longer waits for the instance it stood for", p)
 		}
 	}
+	// R3d: a record's chain field cleared on an API path: the value it held was read before the clear
+	// and forwarded (to a start's wait argument or into a chain field) or shown nil — on every path
+	// that returns, also the one that bails out after the clear
+	if p.End == core.EndReturn {
+		for key, j := range nilWritten {
+			ev := p.Events[j]
+			if ev.Var == nil || !s.cf[ev.Var.Origin()] || s.cf2[ev.Var.Origin()] {
+				continue
+			}
+			forwarded := false
+			for _, src := range allSources {
+				if src.Base+"."+src.Field.Name() == key && src.Idx < j && sunk[src] {
+					forwarded = true
+				}
+			}
+			construct := enclosingName(c, ev) + "/clear(" + core.FieldName(ev.Var.Origin()) + ")"
+			s.note("R3d", construct, ev.Pos, !forwarded,
+				"the chain field "+core.FieldName(ev.Var.Origin())+" is set to nil on a path that does not hand the value it held to a start or store it in a chain field (nor show it nil): if the instance it stood for is still returning, the next start no longer waits for it", p)
+		}
+	}
 	// R3d: detach without retention
 	for _, sw := range slotWrites {
 		ev := sw.ev
